@@ -50,86 +50,86 @@ PROPS = {
     "C01": {
         "prop_files": ['Katib/Props/C01.lean', 'Katib/Props/C01World.lean', 'Katib/Props/C01Parallel.lean'],
         "streams": [('SIM', {'quick': 240, 'thorough': 8000})],
-        "rule": "seeded random schedules of the three real reconcilers on the fake client (1-2 experiments, optionally equally named in two namespaces; maxTrialCount 1-4/unset, parallel 1-3, maxFailed, goal, three resume policies, early stopping, retain, push collector), ops = reconciles with per-kind monotone lagging views, write-fault masks, abort points, algorithm reply faults (short/long/error, rules RPC error), job outcomes, metric arrival, early stop, deployment ready; then fault-free settling to quiescence, a quiescence probe, optionally a budget raise and a second settling; every op's write log and the whole store are compared with the Lean model; a case = one schedule; distinct = distinct op sequence",
+        "rule": "seeded random schedules of the three real reconcilers on the fake client (1-2 experiments, optionally equally named in two namespaces; maxTrialCount 1-4/unset, parallel 1-3, maxFailed, goal, three resume policies, early stopping, retain, push collector), ops = reconciles with per-kind monotone lagging views (random lag, stalled informers, one kind's cache held for several reconciles - also exactly at the Experiment copy from before its verdict), write-fault masks, abort points, algorithm reply faults (short/long/error, rules RPC error), job outcomes, metric arrival (also after the verdict), early stop, deployment ready, external removal of a completed trial's run object; then fault-free settling to quiescence, a quiescence probe, optionally one or two budget raises each with a second settling, and optionally a teardown in which Trials are deleted and reconciled while the database call or the finalizer write fails; every op's write log and the whole store are compared with the Lean model; a case = one schedule; distinct = distinct op sequence",
         "trusted": ["controller-runtime fake client stands in for the kube-apiserver (rv conflicts, status subresource, AlreadyExists)",
                     "fake algorithm / early-stopping / DB-manager services", "typed reads inside a reconcile come from a snapshot (informer cache), run objects are read live"],
         "modelled": ["ReconcileExperiment.Reconcile / ReconcileSuggestion.Reconcile / ReconcileTrial.Reconcile and helpers as Katib.Ctl.expPlan / sugPlan / trialPlan",
                      "API-server semantics as Katib.Ctl.applyCall", "the op/step state machine Katib.Ctl.step"],
         "level_text": 'C01_total: for every list of simulator operations (reconciles of the three controllers in any order, every typed kind read from an arbitrary earlier snapshot, any fault mask and abort point, any environment events) an unedited experiment with maxTrialCount = m never has more than m trials, its suggestion never more than m assignments nor requests > m, every trial is named by an assignment and assignments only grow by appending (invariant WInv + Past, resourceVersion identifies content); C01_parallel: over every such list the trials of an experiment that are not completed never exceed parallelTrialCount (#trials <= #assignments <= #completed + parallel; completion is permanent, so a stale view only under-counts completed trials); plan-level theorem for no-create-after-verdict; model tied to the real reconcilers by exact store/write-log correspondence on generated schedules; observed stores judged by the C01 oracle',
         "level_note": "trusted: Lean kernel; harness/check; fake client as API server; views monotone per kind; the tie between Lean model and Go controllers is differential (sampling)",
-        "assumptions": ["informer caches are monotone per kind", "nobody but the controllers deletes run objects", "algorithm service returns fresh names"],
+        "assumptions": ["informer caches are monotone per kind", "run objects are removed by others only after their Trial completed", "algorithm service returns fresh names"],
     },
     "C04": {
-        "prop_files": ['Katib/Props/C04.lean'],
+        "prop_files": ['Katib/Props/C04.lean', 'Katib/Props/C04Quiescent.lean'],
         "streams": [('SIM', {'quick': 240, 'thorough': 8000})],
-        "rule": "seeded random schedules of the three real reconcilers on the fake client (1-2 experiments, optionally equally named in two namespaces; maxTrialCount 1-4/unset, parallel 1-3, maxFailed, goal, three resume policies, early stopping, retain, push collector), ops = reconciles with per-kind monotone lagging views, write-fault masks, abort points, algorithm reply faults (short/long/error, rules RPC error), job outcomes, metric arrival, early stop, deployment ready; then fault-free settling to quiescence, a quiescence probe, optionally a budget raise and a second settling; every op's write log and the whole store are compared with the Lean model; a case = one schedule; distinct = distinct op sequence",
+        "rule": "seeded random schedules of the three real reconcilers on the fake client (1-2 experiments, optionally equally named in two namespaces; maxTrialCount 1-4/unset, parallel 1-3, maxFailed, goal, three resume policies, early stopping, retain, push collector), ops = reconciles with per-kind monotone lagging views (random lag, stalled informers, one kind's cache held for several reconciles - also exactly at the Experiment copy from before its verdict), write-fault masks, abort points, algorithm reply faults (short/long/error, rules RPC error), job outcomes, metric arrival (also after the verdict), early stop, deployment ready, external removal of a completed trial's run object; then fault-free settling to quiescence, a quiescence probe, optionally one or two budget raises each with a second settling, and optionally a teardown in which Trials are deleted and reconciled while the database call or the finalizer write fails; every op's write log and the whole store are compared with the Lean model; a case = one schedule; distinct = distinct op sequence",
         "trusted": ["controller-runtime fake client stands in for the kube-apiserver (rv conflicts, status subresource, AlreadyExists)",
                     "fake algorithm / early-stopping / DB-manager services", "typed reads inside a reconcile come from a snapshot (informer cache), run objects are read live"],
         "modelled": ["ReconcileExperiment.Reconcile / ReconcileSuggestion.Reconcile / ReconcileTrial.Reconcile and helpers as Katib.Ctl.expPlan / sugPlan / trialPlan",
                      "API-server semantics as Katib.Ctl.applyCall", "the op/step state machine Katib.Ctl.step"],
-        "level_text": 'quiescence/no-hot-loop statements about the controller model; correspondence on generated schedules with fault-free settling and a quiescence probe; oracle demands a verdict at observed quiescence',
+        "level_text": 'C04_quiescent_verdict_partial: for every store (not only reachable ones) in which none of the three controllers has a write to issue on live reads, every run object has finished, collected metrics are stored and parse, the algorithm Deployment is ready and no Trial is early-stopped without an objective value, an Experiment with maxTrialCount carries a verdict (assumed store facts listed in the theorem: unique Trial keys, suggestionCount = |assignments|, unique assignment names, Suggestion of an unfinished Experiment not Succeeded, MetricsUnavailable Trials not Running, zero counters without Trials); no-hot-loop statements C04_no_noop_*; C04_wedge_counterexample for the excluded region; correspondence on generated schedules with fault-free settling and a quiescence probe; oracle demands a verdict at observed quiescence',
         "level_note": "trusted: Lean kernel; harness/check; fake client as API server; views monotone per kind; the tie between Lean model and Go controllers is differential (sampling)",
-        "assumptions": ["informer caches are monotone per kind", "nobody but the controllers deletes run objects", "algorithm service returns fresh names"],
+        "assumptions": ["informer caches are monotone per kind", "run objects are removed by others only after their Trial completed", "algorithm service returns fresh names"],
     },
     "C06": {
         "prop_files": ['Katib/Props/C06.lean', 'Katib/Props/C06World.lean'],
         "streams": [('SIM', {'quick': 240, 'thorough': 8000})],
-        "rule": "seeded random schedules of the three real reconcilers on the fake client (1-2 experiments, optionally equally named in two namespaces; maxTrialCount 1-4/unset, parallel 1-3, maxFailed, goal, three resume policies, early stopping, retain, push collector), ops = reconciles with per-kind monotone lagging views, write-fault masks, abort points, algorithm reply faults (short/long/error, rules RPC error), job outcomes, metric arrival, early stop, deployment ready; then fault-free settling to quiescence, a quiescence probe, optionally a budget raise and a second settling; every op's write log and the whole store are compared with the Lean model; a case = one schedule; distinct = distinct op sequence",
+        "rule": "seeded random schedules of the three real reconcilers on the fake client (1-2 experiments, optionally equally named in two namespaces; maxTrialCount 1-4/unset, parallel 1-3, maxFailed, goal, three resume policies, early stopping, retain, push collector), ops = reconciles with per-kind monotone lagging views (random lag, stalled informers, one kind's cache held for several reconciles - also exactly at the Experiment copy from before its verdict), write-fault masks, abort points, algorithm reply faults (short/long/error, rules RPC error), job outcomes, metric arrival (also after the verdict), early stop, deployment ready, external removal of a completed trial's run object; then fault-free settling to quiescence, a quiescence probe, optionally one or two budget raises each with a second settling, and optionally a teardown in which Trials are deleted and reconciled while the database call or the finalizer write fails; every op's write log and the whole store are compared with the Lean model; a case = one schedule; distinct = distinct op sequence",
         "trusted": ["controller-runtime fake client stands in for the kube-apiserver (rv conflicts, status subresource, AlreadyExists)",
                     "fake algorithm / early-stopping / DB-manager services", "typed reads inside a reconcile come from a snapshot (informer cache), run objects are read live"],
         "modelled": ["ReconcileExperiment.Reconcile / ReconcileSuggestion.Reconcile / ReconcileTrial.Reconcile and helpers as Katib.Ctl.expPlan / sugPlan / trialPlan",
                      "API-server semantics as Katib.Ctl.applyCall", "the op/step state machine Katib.Ctl.step"],
         "level_text": 'C06_permanent: over every list of simulator operations (no hypothesis on the schedule: arbitrary lagging reads, fault masks, abort points, environment events) a trial never disappears, every condition other than Running that was True in any earlier snapshot is True now (terminal verdicts are permanent) and no trial is both Succeeded and EarlyStopped (invariants TInv/KInv + history relation TPast); C06_verdict_guard: every status write of every reconcile obeys the verdict rules (Succeeded needs job success and an objective value and excludes other verdicts; failure first; MetricsUnavailable only without objective value); correspondence + oracle on generated schedules',
         "level_note": "trusted: Lean kernel; harness/check; fake client as API server; views monotone per kind; the tie between Lean model and Go controllers is differential (sampling)",
-        "assumptions": ["informer caches are monotone per kind", "nobody but the controllers deletes run objects", "algorithm service returns fresh names"],
+        "assumptions": ["informer caches are monotone per kind", "run objects are removed by others only after their Trial completed", "algorithm service returns fresh names"],
     },
     "C07": {
         "prop_files": ['Katib/Props/C07.lean', 'Katib/Props/C07World.lean'],
         "streams": [('SIM', {'quick': 240, 'thorough': 8000})],
-        "rule": "seeded random schedules of the three real reconcilers on the fake client (1-2 experiments, optionally equally named in two namespaces; maxTrialCount 1-4/unset, parallel 1-3, maxFailed, goal, three resume policies, early stopping, retain, push collector), ops = reconciles with per-kind monotone lagging views, write-fault masks, abort points, algorithm reply faults (short/long/error, rules RPC error), job outcomes, metric arrival, early stop, deployment ready; then fault-free settling to quiescence, a quiescence probe, optionally a budget raise and a second settling; every op's write log and the whole store are compared with the Lean model; a case = one schedule; distinct = distinct op sequence",
+        "rule": "seeded random schedules of the three real reconcilers on the fake client (1-2 experiments, optionally equally named in two namespaces; maxTrialCount 1-4/unset, parallel 1-3, maxFailed, goal, three resume policies, early stopping, retain, push collector), ops = reconciles with per-kind monotone lagging views (random lag, stalled informers, one kind's cache held for several reconciles - also exactly at the Experiment copy from before its verdict), write-fault masks, abort points, algorithm reply faults (short/long/error, rules RPC error), job outcomes, metric arrival (also after the verdict), early stop, deployment ready, external removal of a completed trial's run object; then fault-free settling to quiescence, a quiescence probe, optionally one or two budget raises each with a second settling, and optionally a teardown in which Trials are deleted and reconciled while the database call or the finalizer write fails; every op's write log and the whole store are compared with the Lean model; a case = one schedule; distinct = distinct op sequence",
         "trusted": ["controller-runtime fake client stands in for the kube-apiserver (rv conflicts, status subresource, AlreadyExists)",
                     "fake algorithm / early-stopping / DB-manager services", "typed reads inside a reconcile come from a snapshot (informer cache), run objects are read live"],
         "modelled": ["ReconcileExperiment.Reconcile / ReconcileSuggestion.Reconcile / ReconcileTrial.Reconcile and helpers as Katib.Ctl.expPlan / sugPlan / trialPlan",
                      "API-server semantics as Katib.Ctl.applyCall", "the op/step state machine Katib.Ctl.step"],
         "level_text": 'C07_deleted_only_when_completed: over every list of simulator operations (no hypothesis on the schedule) a run object that existed in any earlier snapshot and is gone belongs to a Trial that still exists and is completed, and run-object keys are unique (at most one run object per Trial at any time); plan-level: C07_run_object_guard (created only for a not-completed Trial without run object, deleted only for a completed non-retained one), C07_at_most_one_create, C07_db_before_finalizer, C07_finalizer_release_only_after_db; correspondence + oracle on generated schedules',
         "level_note": "trusted: Lean kernel; harness/check; fake client as API server; views monotone per kind; the tie between Lean model and Go controllers is differential (sampling)",
-        "assumptions": ["informer caches are monotone per kind", "nobody but the controllers deletes run objects", "algorithm service returns fresh names"],
+        "assumptions": ["informer caches are monotone per kind", "run objects are removed by others only after their Trial completed", "algorithm service returns fresh names"],
     },
     "C08": {
         "prop_files": ['Katib/Props/C08.lean', 'Katib/Props/C01World.lean'],
         "streams": [('SIM', {'quick': 240, 'thorough': 8000})],
-        "rule": "seeded random schedules of the three real reconcilers on the fake client (1-2 experiments, optionally equally named in two namespaces; maxTrialCount 1-4/unset, parallel 1-3, maxFailed, goal, three resume policies, early stopping, retain, push collector), ops = reconciles with per-kind monotone lagging views, write-fault masks, abort points, algorithm reply faults (short/long/error, rules RPC error), job outcomes, metric arrival, early stop, deployment ready; then fault-free settling to quiescence, a quiescence probe, optionally a budget raise and a second settling; every op's write log and the whole store are compared with the Lean model; a case = one schedule; distinct = distinct op sequence",
+        "rule": "seeded random schedules of the three real reconcilers on the fake client (1-2 experiments, optionally equally named in two namespaces; maxTrialCount 1-4/unset, parallel 1-3, maxFailed, goal, three resume policies, early stopping, retain, push collector), ops = reconciles with per-kind monotone lagging views (random lag, stalled informers, one kind's cache held for several reconciles - also exactly at the Experiment copy from before its verdict), write-fault masks, abort points, algorithm reply faults (short/long/error, rules RPC error), job outcomes, metric arrival (also after the verdict), early stop, deployment ready, external removal of a completed trial's run object; then fault-free settling to quiescence, a quiescence probe, optionally one or two budget raises each with a second settling, and optionally a teardown in which Trials are deleted and reconciled while the database call or the finalizer write fails; every op's write log and the whole store are compared with the Lean model; a case = one schedule; distinct = distinct op sequence",
         "trusted": ["controller-runtime fake client stands in for the kube-apiserver (rv conflicts, status subresource, AlreadyExists)",
                     "fake algorithm / early-stopping / DB-manager services", "typed reads inside a reconcile come from a snapshot (informer cache), run objects are read live"],
         "modelled": ["ReconcileExperiment.Reconcile / ReconcileSuggestion.Reconcile / ReconcileTrial.Reconcile and helpers as Katib.Ctl.expPlan / sugPlan / trialPlan",
                      "API-server semantics as Katib.Ctl.applyCall", "the op/step state machine Katib.Ctl.step"],
         "level_text": 'append-only / atomic-sync theorems about the suggestion reconciler plan (C08_sync_guard, C08_atomic, C08_wrong_size) and, over every list of simulator operations, C01_total: the assignment list of any earlier snapshot is a prefix of the current one, count = number of assignments <= requests bound; correspondence + oracle on generated schedules',
         "level_note": "trusted: Lean kernel; harness/check; fake client as API server; views monotone per kind; the tie between Lean model and Go controllers is differential (sampling)",
-        "assumptions": ["informer caches are monotone per kind", "nobody but the controllers deletes run objects", "algorithm service returns fresh names"],
+        "assumptions": ["informer caches are monotone per kind", "run objects are removed by others only after their Trial completed", "algorithm service returns fresh names"],
     },
     "C09": {
         "prop_files": ['Katib/Props/C09.lean'],
         "streams": [('SIM', {'quick': 240, 'thorough': 8000})],
-        "rule": "seeded random schedules of the three real reconcilers on the fake client (1-2 experiments, optionally equally named in two namespaces; maxTrialCount 1-4/unset, parallel 1-3, maxFailed, goal, three resume policies, early stopping, retain, push collector), ops = reconciles with per-kind monotone lagging views, write-fault masks, abort points, algorithm reply faults (short/long/error, rules RPC error), job outcomes, metric arrival, early stop, deployment ready; then fault-free settling to quiescence, a quiescence probe, optionally a budget raise and a second settling; every op's write log and the whole store are compared with the Lean model; a case = one schedule; distinct = distinct op sequence",
+        "rule": "seeded random schedules of the three real reconcilers on the fake client (1-2 experiments, optionally equally named in two namespaces; maxTrialCount 1-4/unset, parallel 1-3, maxFailed, goal, three resume policies, early stopping, retain, push collector), ops = reconciles with per-kind monotone lagging views (random lag, stalled informers, one kind's cache held for several reconciles - also exactly at the Experiment copy from before its verdict), write-fault masks, abort points, algorithm reply faults (short/long/error, rules RPC error), job outcomes, metric arrival (also after the verdict), early stop, deployment ready, external removal of a completed trial's run object; then fault-free settling to quiescence, a quiescence probe, optionally one or two budget raises each with a second settling, and optionally a teardown in which Trials are deleted and reconciled while the database call or the finalizer write fails; every op's write log and the whole store are compared with the Lean model; a case = one schedule; distinct = distinct op sequence",
         "trusted": ["controller-runtime fake client stands in for the kube-apiserver (rv conflicts, status subresource, AlreadyExists)",
                     "fake algorithm / early-stopping / DB-manager services", "typed reads inside a reconcile come from a snapshot (informer cache), run objects are read live"],
         "modelled": ["ReconcileExperiment.Reconcile / ReconcileSuggestion.Reconcile / ReconcileTrial.Reconcile and helpers as Katib.Ctl.expPlan / sugPlan / trialPlan",
                      "API-server semantics as Katib.Ctl.applyCall", "the op/step state machine Katib.Ctl.step"],
         "level_text": 'request-content theorems about the suggestion reconciler model; correspondence + oracle on schedules with two namespaces / equal names',
         "level_note": "trusted: Lean kernel; harness/check; fake client as API server; views monotone per kind; the tie between Lean model and Go controllers is differential (sampling)",
-        "assumptions": ["informer caches are monotone per kind", "nobody but the controllers deletes run objects", "algorithm service returns fresh names"],
+        "assumptions": ["informer caches are monotone per kind", "run objects are removed by others only after their Trial completed", "algorithm service returns fresh names"],
     },
     "C16": {
         "prop_files": ['Katib/Props/C16.lean'],
         "streams": [('SIM', {'quick': 240, 'thorough': 8000})],
-        "rule": "seeded random schedules of the three real reconcilers on the fake client (1-2 experiments, optionally equally named in two namespaces; maxTrialCount 1-4/unset, parallel 1-3, maxFailed, goal, three resume policies, early stopping, retain, push collector), ops = reconciles with per-kind monotone lagging views, write-fault masks, abort points, algorithm reply faults (short/long/error, rules RPC error), job outcomes, metric arrival, early stop, deployment ready; then fault-free settling to quiescence, a quiescence probe, optionally a budget raise and a second settling; every op's write log and the whole store are compared with the Lean model; a case = one schedule; distinct = distinct op sequence",
+        "rule": "seeded random schedules of the three real reconcilers on the fake client (1-2 experiments, optionally equally named in two namespaces; maxTrialCount 1-4/unset, parallel 1-3, maxFailed, goal, three resume policies, early stopping, retain, push collector), ops = reconciles with per-kind monotone lagging views (random lag, stalled informers, one kind's cache held for several reconciles - also exactly at the Experiment copy from before its verdict), write-fault masks, abort points, algorithm reply faults (short/long/error, rules RPC error), job outcomes, metric arrival (also after the verdict), early stop, deployment ready, external removal of a completed trial's run object; then fault-free settling to quiescence, a quiescence probe, optionally one or two budget raises each with a second settling, and optionally a teardown in which Trials are deleted and reconciled while the database call or the finalizer write fails; every op's write log and the whole store are compared with the Lean model; a case = one schedule; distinct = distinct op sequence",
         "trusted": ["controller-runtime fake client stands in for the kube-apiserver (rv conflicts, status subresource, AlreadyExists)",
                     "fake algorithm / early-stopping / DB-manager services", "typed reads inside a reconcile come from a snapshot (informer cache), run objects are read live"],
         "modelled": ["ReconcileExperiment.Reconcile / ReconcileSuggestion.Reconcile / ReconcileTrial.Reconcile and helpers as Katib.Ctl.expPlan / sugPlan / trialPlan",
                      "API-server semantics as Katib.Ctl.applyCall", "the op/step state machine Katib.Ctl.step"],
         "level_text": 'resume-policy theorems about the controller model; correspondence + oracle on schedules with budget raises',
         "level_note": "trusted: Lean kernel; harness/check; fake client as API server; views monotone per kind; the tie between Lean model and Go controllers is differential (sampling)",
-        "assumptions": ["informer caches are monotone per kind", "nobody but the controllers deletes run objects", "algorithm service returns fresh names"],
+        "assumptions": ["informer caches are monotone per kind", "run objects are removed by others only after their Trial completed", "algorithm service returns fresh names"],
     },
     "C19": {
         "prop_files": ["Katib/Props/C19.lean"],
